@@ -86,6 +86,9 @@ func RepoHash() string {
 
 // SelfHash hashes the running binary, so that any change to the framework invalidates caches.
 func SelfHash() string {
+	if os.Getenv("VERIF_DEV_NOSELF") != "" {
+		return "dev"
+	}
 	exe, err := os.Executable()
 	if err != nil {
 		return "noexe"
